@@ -1,9 +1,76 @@
 import RefurbVerif.Wire.Basic
+import RefurbVerif.Model.Gen
+import RefurbVerif.Generated.NodeTypes
 open Lean
 
 namespace RefurbVerif.Wire
+namespace G19
+open RefurbVerif.Gen
 
-/-- driver verbs of this group (filled in by the property that owns it) -/
-def handleGen (_verb : String) (_j : Json) : Option Json := none
+def chs (s : String) : Str := s.toList
+def sj (s : Str) : Json := Json.str (String.ofList s)
+def strsJ (l : List Str) : Json := Json.arr (l.map sj).toArray
+
+def idsOf (j : Json) : List (Str × Nat) :=
+  (arr j "ids").filterMap fun e =>
+    match e with
+    | .arr #[.str p, c] => some (p.toList, (c.getNat?).toOption.getD 0)
+    | _ => none
+
+def tokJ : Tok → Json
+  | .word s => Json.mkObj [("w", sj s)]
+  | .punct c => Json.mkObj [("p", Json.str (String.singleton c))]
+
+def pairJ (p : Str × Str) : Json := Json.arr #[sj p.1, sj p.2]
+
+def loadErrJ : LoadErr → Json
+  | .noCheck => "noCheck"
+  | .arity => "arity"
+  | .errorParam => "errorParam"
+  | .service n => Json.mkObj [("service", sj n)]
+  | .notAType _ => "notAType"
+  | .unbound n => Json.mkObj [("unbound", sj n)]
+  | .invalidNode n => Json.mkObj [("invalidNode", sj n)]
+
+end G19
+open RefurbVerif.Gen G19
+
+/-- driver verbs of `refurb gen` (C19) -/
+def handleGen (verb : String) (j : Json) : Option Json :=
+  let tbl := Generated.nodeTypes
+  match verb with
+  | "gen.main" =>
+    -- raw: the lines the multi-selection prompt returned; file; prefix; ids: [[prefix, code], …] of get_modules([])
+    match genMain tbl (idsOf j) ((strs j "raw").map chs) (chs (str j "file")) (chs (str j "prefix")) with
+    | .badSuffix => some (Json.mkObj [("r", "badSuffix")])
+    | .keyError n => some (Json.mkObj [("r", "keyError"), ("name", sj n)])
+    | .written t i => some (Json.mkObj [("r", "written"), ("text", sj t), ("id", i)])
+  | "gen.imports" =>
+    some (sj (buildImports (moduleOf tbl) ((strs j "names").map chs)))
+  | "gen.nextid" =>
+    some (Json.mkObj [("highest", highest (idsOf j) (chs (str j "prefix"))), ("id", nextId (idsOf j) (chs (str j "prefix")))])
+  | "gen.suffix" => some (sj (suffix (chs (str j "path"))))
+  | "gen.init" =>
+    -- parent components relative to the working directory
+    some (Json.arr ((initFolders ((strs j "parts").map chs)).map strsJ).toArray)
+  | "gen.read" =>
+    -- token-level reading of a file + what the loader / visitor models make of it
+    let r := read (chs (str j "text"))
+    let types := loadTypes tbl r
+    let kinds := (strs j "kinds").map chs
+    let fires := match types, r.pattern with
+      | .ok ts, some pat => kinds.map (fun k => Json.arr #[sj k, fireCount tbl ts pat k])
+      | _, _ => []
+    some (Json.mkObj [
+      ("imports", Json.arr (r.imports.map pairJ).toArray),
+      ("classes", Json.arr (r.classes.map pairJ).toArray),
+      ("prefix", optJ sj r.pfx),
+      ("code", optJ sj r.code),
+      ("params", optJ (fun ps => Json.arr (ps.map (fun p => Json.arr #[sj p.1, Json.arr (p.2.map tokJ).toArray])).toArray) r.params),
+      ("pattern", optJ strsJ r.pattern),
+      ("types", match types with | .ok ts => Json.mkObj [("ok", strsJ ts)] | .error e => Json.mkObj [("error", loadErrJ e)]),
+      ("errorClass", optJ sj (getErrorClass r)),
+      ("fires", Json.arr fires.toArray)])
+  | _ => none
 
 end RefurbVerif.Wire
